@@ -27,6 +27,7 @@ def run(tier, seed, flavour="plain"):
         "samples": m["samples"], "exhaustive": True, "instantiations": types,
         "zero_checked": {t: m["counters"].get("c17_zero_" + t, 0) for t in types},
         "setvalue_probes": m["counters"].get("c17_setvalue_probes", 0), "mutablevalue_probes": m["counters"].get("c17_mutablevalue_probes", 0),
+        "setvalue_onto_equal_comparing_value_probes(signed zeros)": m["counters"].get("c17_setvalue_signed_zero_probes", 0),
         "mutablevalue_assigned_from_array_probes": m["counters"].get("c17_mutablevalue_array_probes", 0),
         "mutablevalue_assigned_from_symmetric_tensor_probes(9-number quantities)": m["counters"].get("c17_mutablevalue_symmetric_probes", 0),
         "types_without_Zero": m["lists"].get("c17_types_without_Zero", []),
